@@ -12,6 +12,7 @@ import (
 	"github.com/ericlagergren/decimal"
 
 	"verifmon/internal/core"
+	"verifmon/internal/gen"
 	"verifmon/internal/obs"
 	"verifmon/internal/ref"
 	"verifmon/internal/val"
@@ -584,6 +585,7 @@ var c07NoMap = core.Mon(c07, "runner-without-map", func(w *core.W, c *NoMapCase)
 })
 
 func runC07(w *core.W) {
+	runC07Once(w)
 	ni := 0
 	for mode := 0; mode < 4; mode++ {
 		for _, n := range []int{3, 17, 127, 128, 129, 256, 1000, 4097} {
@@ -721,6 +723,69 @@ func runC07(w *core.W) {
 			idx++
 			if w.Mine(idx) {
 				c07Frame(w, &EvalCase{Src: strings.ReplaceAll(t, "%x", x), Data: fd, Gen: "frame-op"})
+			}
+		}
+	}
+}
+
+// OnceCase: an assignment standing as an argument of a builtin (or host function) is evaluated exactly once, whatever the
+// function does with the value - also when the value is not of the kind the parameter wants.
+type OnceCase struct {
+	Fn    string `json:"fn"`
+	Args  int    `json:"args"`
+	Start string `json:"start"` // initial value of the counter local (number, numeric text, text)
+}
+
+var c07Once = core.Mon(c07, "argument-evaluated-once", func(w *core.W, c *OnceCase) {
+	w.Count("argument_once_cases")
+	w.Nontrivial("once:" + core.HashStr(c))
+	var args []string
+	for i := 0; i < c.Args; i++ {
+		args = append(args, "$k = $k + 1")
+	}
+	src := "$k = 0, $v = " + c.Start + ", [" + c.Fn + "(" + strings.Join(args, ", ") + ")], $k"
+	if c.Start != "0" {
+		// the argument's VALUE is of another kind (text, null, a list), the counter still advances once per argument
+		for i := range args {
+			args[i] = "($k = $k + 1, $v)"
+		}
+		src = "$k = 0, $v = " + c.Start + ", [" + c.Fn + "(" + strings.Join(args, ", ") + ")], $k"
+	}
+	data := map[string]interface{}{"fone": func(x interface{}) (interface{}, error) { return x, nil }, "fstr": func(s string) (string, error) { return s, nil }, "fvar": func(xs ...interface{}) (int, error) { return len(xs), nil }}
+	v, err, panicked, pv := resolveInOnce(data, src)
+	w.Eval(1)
+	if panicked {
+		w.Violation("argument-evaluated-once", "C07/escaped-panic", c, fmt.Sprint(c.Args), fmt.Sprint(pv), src)
+		return
+	}
+	if err != nil {
+		// the call was refused (count or kind): how far the arguments got is not compared, but the counter never exceeds their number
+		w.Count("argument_once_refused")
+		k, _ := data["$k"].(*decimal.Big)
+		if k != nil {
+			if n, ok := k.Int64(); !ok || n > int64(c.Args) || n < 0 {
+				w.Violation("argument-evaluated-once", "C07/argument-evaluated-more-than-once", c, fmt.Sprintf("$k <= %d", c.Args), k.String(), src+" (refused: "+err.Error()+")")
+			}
+		}
+		return
+	}
+	if got := plainNums(v); got != fmt.Sprint(c.Args) {
+		w.Violation("argument-evaluated-once", "C07/argument-evaluated-more-than-once", c, fmt.Sprint(c.Args), got, src+": every written argument is evaluated exactly once")
+	}
+})
+
+func runC07Once(w *core.W) {
+	i := 0
+	fns := append(append([]string{}, gen.Builtins...), "fone", "fstr", "fvar")
+	for _, fn := range fns {
+		if fn == "now" || fn == "toDay" {
+			continue
+		}
+		for args := 1; args <= 3; args++ {
+			for _, start := range []string{"0", "'12'", "'ab'", "null", "[1, 2]", "2.5"} {
+				if i++; w.Mine(i) {
+					c07Once(w, &OnceCase{Fn: fn, Args: args, Start: start})
+				}
 			}
 		}
 	}
